@@ -53,6 +53,7 @@ type vfModPipe struct {
 	ctx      context.Context
 	sawParams bool
 	ops       map[uint64]*spb.AFTOperation
+	lastAnnounced *spb.Uint128
 }
 
 type vfModC struct {
@@ -358,10 +359,11 @@ const (
 	vfFaultAcceptsRepeatedParams        // swallows a repeated SessionParameters message and acknowledges it
 	vfFaultIgnoresOperationElectionID   // programs operations stamped with a stale or unannounced election id
 	vfFaultFlushHitsEveryInstance       // a Flush of one named instance flushes all of them
+	vfFaultEchoesOwnElectionID          // reports to every session the id that session announced last, not the highest one learnt
 	vfNFaults
 )
 
-var vfFaultNames = []string{"none", "no-fib-ack", "delete-of-absent-fails", "incomplete-get", "ignores-flush", "misreports-election-id", "accepts-repeated-params", "ignores-operation-election-id", "flush-hits-every-instance"}
+var vfFaultNames = []string{"none", "no-fib-ack", "delete-of-absent-fails", "incomplete-get", "ignores-flush", "misreports-election-id", "accepts-repeated-params", "ignores-operation-election-id", "flush-hits-every-instance", "echoes-own-election-id"}
 
 // vfWrittenFor: is the test written for the requirement the fault breaks?  Derived from the suite's own
 // requirement flags and documentation, not from observed verdicts.
@@ -380,6 +382,8 @@ func vfWrittenFor(f vfFault, ts *TestSpec) bool {
 			"Flush to specific network instance is honoured", "Flush all network instances":
 			return true
 		}
+	case vfFaultEchoesOwnElectionID:
+		return n == "Election - Lower election ID from new client"
 	case vfFaultFlushHitsEveryInstance:
 		switch n {
 		case "Flush to specific network instance is honoured", "Flush non-default network instances preserves the default":
@@ -434,6 +438,9 @@ func (c *vfConn) faultC2S(p *vfModPipe, m *spb.ModifyRequest) (fwd *spb.ModifyRe
 		// the highest id announced on this connection: what a conformant core reports as current
 		c.curElection = &spb.Uint128{High: e.High, Low: e.Low}
 	}
+	if e := m.ElectionId; e != nil {
+		p.lastAnnounced = &spb.Uint128{High: e.High, Low: e.Low}
+	}
 	switch c.fault {
 	case vfFaultAcceptsRepeatedParams:
 		if m.Params != nil {
@@ -473,6 +480,12 @@ func (c *vfConn) faultS2C(p *vfModPipe, r *spb.ModifyResponse) *spb.ModifyRespon
 			return nil
 		}
 		return n
+	case vfFaultEchoesOwnElectionID:
+		if r.ElectionId != nil && p.lastAnnounced != nil {
+			n := proto.Clone(r).(*spb.ModifyResponse)
+			n.ElectionId = &spb.Uint128{High: p.lastAnnounced.High, Low: p.lastAnnounced.Low}
+			return n
+		}
 	case vfFaultMisreportsElectionID:
 		if r.ElectionId != nil {
 			n := proto.Clone(r).(*spb.ModifyResponse)
